@@ -531,6 +531,8 @@ def mon_C13(s):
             idx = st["tasks"].get(key)
             if idx is not None and idx < len(prev["sequence"]) and st["sequence"][idx]["status"] == "retrying":
                 a, b = prev["sequence"][idx], st["sequence"][idx]
+                if a["status"] in ("succeeded", "failed") and a["next"]:
+                    out.append(V("attempt of %s was retried after its transitions had been decided" % op["task"], i))
                 if a["next"] != b["next"] or len(st["contexts"]) != len(prev["contexts"]):
                     out.append(V("retried attempt of %s recorded decisions or published" % op["task"], i))
                 extra = [x for x in st["staged"] if x not in prev["staged"] and not (x["id"] == op["task"] and x["route"] == op["route"])]
@@ -594,18 +596,6 @@ def mon_C07(s):
                 t = td.get(x["id"])
                 if t and t.get("join") is not None and not x["ready"]:
                     out.append(V("succeeded with an unsatisfied staged join %s" % x["id"], i))
-        # a task report that leaves the workflow failed with a partially satisfied join that was
-        # never made ready must have logged the unreachable-join error for it
-        if op["op"] == "report" and not raised(r) and st["status"] == "failed" and not had_rerun(s, i) \
-                and not has_count_join_below_all(s) \
-                and i > 0 and (s["replies"][i - 1].get("state") or {}).get("status") not in ("succeeded", "failed", "canceled") \
-                and not any(t["status"] in ACTIVE for t in st["sequence"]) and not ready_staged(st):
-            # (nothing is running and nothing else could still run: the join can no longer be satisfied)
-            logged = set((e[1], e[2]) for e in st["errors"] if e[0] == "UnreachableJoinError")
-            for x in st["staged"]:
-                t = td.get(x["id"])
-                if t and t.get("join") is not None and not x["ready"] and x["prev"] and (x["id"], x["route"]) not in logged:
-                    out.append(V("workflow failed while join %s was partially satisfied and no unreachable-join error was logged for it" % x["id"], i))
     return out
 
 
